@@ -356,7 +356,8 @@ def run(ctx: vlib.Ctx):
                 {"branch", "loops"}, {"branch", "loops", "lists", "calls"},
                 {"lists", "nested"}, {"lists", "nested", "calls"}, {"lists", "nested", "calls", "branch"},
                 {"calls", "shadowing"}, {"calls", "shadowing", "branch"},
-                {"condbound"}, {"condbound", "branch", "calls"}, {"condbound", "globals", "branch"}]
+                {"condbound"}, {"condbound", "branch", "calls"}, {"condbound", "globals", "branch"},
+                {"closures"}, {"closures", "branch", "calls"}]
     for _ in range(n_cases):
         cases.append(_tolist(core.gen_case(ctx.rng, ctx.rng.choice(profiles))))
     scratch = ctx.mkscratch()
